@@ -185,6 +185,13 @@ const STR_POOL: &[&str] = &[
     "tab\there",
     "a\rb",
     "a\r\nb",
+    "\r",
+    "\r\r",
+    "\r\n\r",
+    "\r\n",
+    "\u{a0}",
+    "\u{a0}nbsp\u{a0}",
+    "\u{2028}",
     "<&>\"'",
     "]]>",
     " ]]> ",
@@ -401,7 +408,11 @@ impl VGen {
                 let mut a = basis;
                 let zeros: Vec<(usize, usize)> = (0..3).flat_map(|i| (0..3).map(move |j| (i, j))).filter(|(i, j)| a[*i][*j] == 0.0).collect();
                 let (i, j) = *r.pick(&zeros);
-                a[i][j] = *r.pick(&[f32::NAN, f32::from_bits(0x7fc0_1234), f32::from_bits(0xffc0_0000), -0.0, f32::from_bits(1), f32::INFINITY]);
+                a[i][j] = if self.finite {
+                    *r.pick(&[-0.0, f32::from_bits(1), -f32::from_bits(1)])
+                } else {
+                    *r.pick(&[f32::NAN, f32::from_bits(0x7fc0_1234), f32::from_bits(0xffc0_0000), -0.0, f32::from_bits(1), f32::INFINITY])
+                };
                 m(a)
             }
             5 => {
